@@ -13,6 +13,9 @@ ASSUMPTIONS = ['sec_param k=30: probabilistic zero test may err with probability
                'comparison operands generated with differences inside l bits (implicit precondition of sgn)']
 
 
+TIMEOUT_INCONCLUSIVE = True  # hangs are decided by quiescence in the simulator, not by the wall clock
+
+
 def budget(tier):
     return dict(shards=16, examples=100 if tier == 'quick' else 600)
 
